@@ -179,3 +179,31 @@ func extentPositiveControls(c *Ctx, r *Report) {
 	}
 	_ = strings.Join
 }
+
+// registerPositiveControls: the definite-assignment rule must report the control that reads vector registers nobody has
+// written, and must be silent on the clean copy.
+func registerPositiveControls(c *Ctx, r *Report) {
+	u, _ := loadAsmControls(c, r)
+	if u == nil {
+		return
+	}
+	for name, want := range map[string]bool{"staleRegisterRead": true, "cleanCopy16": false} {
+		rt := u.Routine(name)
+		if rt == nil {
+			r.Fatalf("positive control %s not found", name)
+			continue
+		}
+		f := AnalyzeFlow(rt)
+		if len(f.Errors) > 0 {
+			r.Fatalf("positive control %s: %s", name, f.Errors[0])
+			continue
+		}
+		undef := VecDefBeforeUse(rt, f)
+		r.Count("positive_controls", 1)
+		if (len(undef) > 0) != want {
+			r.Fatalf("positive control asmctl.%s: REGISTER-DEFINED reports %d reads of unwritten registers (expected a report: %v)", name, len(undef), want)
+		} else {
+			r.Ok("POSITIVE-CONTROL", "asmctl."+name, "checker/testdata/controls/asmctl", fmt.Sprintf("definite assignment of vector registers: %d reads of unwritten registers (expected a report: %v)", len(undef), want))
+		}
+	}
+}
